@@ -156,20 +156,44 @@ def make_units(tier):
         for first in (('L', 1), ('L', 2), ('R', 'stream'), ('R', 'channel'), ('R', 'rr')):
             units.append({'src': 'lease', 'flavour': flavour, 'fs': fs, 'first': list(first), 'depth': 4 if tier == 'quick' else 5,
                           'bound': 0, 'name': 'lease', 'shard': [0, 1]})
-    for u in c01.make_units(tier):
-        if tier == 'quick' and u['bound'] > 1:
-            if u['shard'][0] != 0:
+    if tier == 'quick':
+        for u in c01.make_units(tier):
+            if u['bound'] > 1:
+                if u['shard'][0] != 0:
+                    continue
+                u = dict(u, bound=1, shard=[0, 1])
+            if u.get('policy') == 'app-first-batch' and u['fs'] is None:
                 continue
-            u = dict(u, bound=1, shard=[0, 1])
-        if tier == 'quick' and u.get('policy') == 'app-first-batch' and u['fs'] is None:
+            units.append(dict(u, src='c01', monitors=['legality']))
+        for u in c10._base_make_units(tier):
+            if u.get('policy') == 'app-first-batch' and u['fs'] is None:
+                continue  # quick: the second default policy only for the fragmenting configurations of the endings family
+            units.append(dict(u, src='c10', monitors=['legality']))
+        for u in c09.make_units(tier):
+            units.append(dict(u, src='c09', monitors=['legality']))
+        return units
+    # thorough (sized to complete inside the budget on 16 cores): every C01 thorough configuration once at bound 1 under both
+    # default policies; the endings family (C10) and the cancel family (C09) at bound 2 on the byte-stream link, bound 1 elsewhere
+    seen = set()
+    for u in c01.make_units(tier):
+        key = (u['name'], repr(u['inters']), u['flavour'], u['fs'], u.get('round_robin', False))
+        if key in seen or u['flavour'] not in ('tcp', 'msg', 'quic'):
             continue
-        units.append(dict(u, src='c01', monitors=['legality']))
-    for u in c10._base_make_units(tier):
-        if tier == 'quick' and u.get('policy') == 'app-first-batch' and u['fs'] is None:
-            continue  # quick: the second default policy only for the fragmenting configurations of the endings family
-        units.append(dict(u, src='c10', monitors=['legality']))
-    for u in c09.make_units(tier):
-        units.append(dict(u, src='c09', monitors=['legality']))
+        seen.add(key)
+        for pol in ('deliver-first', 'app-first-batch'):
+            units.append(dict(u, src='c01', monitors=['legality'], bound=1, shard=[0, 1], policy=pol))
+    for fam, src in ((c10._base_make_units(tier), 'c10'), (c09.make_units(tier), 'c09')):
+        seen = set()
+        for u in fam:
+            if u['flavour'] == 'tcp':
+                units.append(dict(u, src=src, monitors=['legality']))
+                continue
+            key = (u['name'], repr(u['inters']), u['flavour'], u['fs'])
+            if key in seen:
+                continue
+            seen.add(key)
+            for pol in ('deliver-first', 'app-first-batch'):
+                units.append(dict(u, src=src, monitors=['legality'], bound=1, shard=[0, 1], policy=pol))
     return units
 
 
@@ -179,7 +203,7 @@ def bounds(tier):
 
 
 def scenario_of(unit):
-    alts = ('all', 'chunk') if unit['flavour'] == 'tcp' else ('all',)
+    alts = ('all', 'chunk') if unit['flavour'] in ('tcp', 'quic') else ('all',)
     return Mix([Inter.from_spec(c10._full(d)) for d in unit['inters']],
                unit['flavour'], unit['fs'], alts=alts, modes=('Q', '0'), monitors_=('legality',), name=unit['name'],
                policy=unit.get('policy', 'deliver-first'))
